@@ -211,7 +211,7 @@ PROPS = {
     "C01": P("proof", [("mul", 24, 6000)], ["PT.mul"], rule=RULE),
     "C02": P("proof", [("grouplaw", 1500, 200000)], ["PT.add", "PT.addnil", "PT.addself", "PT.dbl", "PT.neg", "PT.sub", "PT.subnil", "PT.subself"], rule=RULE),
     "C03": P("proof", [("decode", 1200, 150000)], ["DEC.*"], rule=RULE),
-    "C04": P("proof", [("enc", 600, 80000), ("roundtrip", 300, 40000)], ["PT.enc", "G.base", "DEC.*"], rule=RULE),
+    "C04": P("proof", [("enc", 600, 80000), ("roundtrip", 300, 40000)], ["PT.enc", "G.base", "G.consts", "G.order", "DEC.*"], rule=RULE),
     "C05": P("proof", [("eq", 1500, 200000)], ["PT.eq", "PT.eqself", "PT.isid"], rule=RULE),
     "C06": P("proof", [("scarith", 2000, 400000), ("sfarith", 2000, 400000)], ["SC.*", "S.*"], rule=RULE,
              trusted=["math/big Exp/SetBytes/Bytes (Scalar.Pow goes through math/big; modelled as exact modular powering)"]),
